@@ -43,11 +43,22 @@ pub fn make_title_case(toks: &[Token], source: &[char], dict: &impl Dictionary) 
                 let orig_text = word.span.get_content(source);
 
                 if let Some(correct_caps) = dict.get_correct_capitalization_of(orig_text) {
-                    // It should match the dictionary verbatim
+                    // It should match the dictionary verbatim: its capitalization and its
+                    // apostrophes. Letters are only ever changed in case, though: the
+                    // dictionary also matches look-alikes (the Kelvin sign) to its own letters.
                     output[word.span.start - start_index..word.span.end - start_index]
                         .iter_mut()
                         .enumerate()
-                        .for_each(|(idx, c)| *c = correct_caps[idx]);
+                        .for_each(|(idx, c)| {
+                            let correct = correct_caps[idx];
+
+                            if !c.is_alphabetic()
+                                || c.to_uppercase().eq(std::iter::once(correct))
+                                || c.to_lowercase().eq(std::iter::once(correct))
+                            {
+                                *c = correct;
+                            }
+                        });
                 }
             }
         };
